@@ -1279,7 +1279,16 @@ fn diff_edge_attachments(
         let edge_id = EdgeId(*id);
         let before_val = before.edge_attachment(&edge_id);
         let after_val = after.edge_attachment(&edge_id);
-        if before_val == after_val {
+        // A re-parented edge (same id, different `from`) is emitted as
+        // `DeleteEdge` + `UpsertEdge`, and replaying `DeleteEdge` clears the
+        // edge's attachment. A surviving attachment must therefore be re-emitted
+        // even though it is unchanged between `before` and `after`.
+        let reparented_with_attachment = after_val.is_some()
+            && before
+                .edge_index
+                .get(&edge_id)
+                .is_some_and(|from| after.edge_index.get(&edge_id) != Some(from));
+        if before_val == after_val && !reparented_with_attachment {
             continue;
         }
 
